@@ -333,7 +333,7 @@ pub const BOUNDARY: [u64; 22] = [
 
 fn mutate_dir(d: &mut MDir, rng: &mut Rng, n_leaves: usize) -> String {
     let n = d.ids.len();
-    match rng.below(10) {
+    match rng.below(12) {
         0 => {
             d.count = *rng.pick(&BOUNDARY);
             format!("count={}", d.count)
@@ -379,6 +379,24 @@ fn mutate_dir(d: &mut MDir, rng: &mut Rng, n_leaves: usize) -> String {
             d.runs[i] = 0;
             d.target[i] = if n_leaves > 0 { Some(rng.usize(0, n_leaves - 1)) } else { None };
             format!("pointer[{i}]->{:?}", d.target[i])
+        }
+        9 if d.offs.len() >= 2 && d.lens.len() >= 2 => {
+            // two entries start at the same byte but declare different lengths (prefix sharing / overlap)
+            let i = rng.usize(0, d.offs.len() - 2);
+            let j = i + 1;
+            let base = if d.offs[i] == 0 { 1 } else { d.offs[i] };
+            d.offs[i] = base;
+            d.offs[j] = base;
+            if j < d.target.len() {
+                d.target[j] = None;
+            }
+            d.lens[j] = d.lens[i] + rng.range(1, 40);
+            format!("alias-offset[{i},{j}]")
+        }
+        10 if n > 0 => {
+            let i = rng.usize(0, n - 1);
+            d.lens[i] = *rng.pick(&[1u64 << 32, 2 << 32, (1 << 32) + 1, 1 << 35, 1 << 40]);
+            format!("len[{i}]=k*2^32")
         }
         _ => {
             // drop the last value of a column (columns of unequal length)
